@@ -135,6 +135,42 @@ theorem filter_spec (rows : List α) (mask : List Bool) :
 theorem take_spec (rows : List α) (idxs : List Int) :
     take rows idxs = pick (fun i => decide ((i : Int) ∈ idxs)) rows := take_eq rows idxs
 
+/-- **`take` depends on the index collection only through membership**: two collections with the same members -
+listed in another order (a range counting down), with repeats, of another length - select the same rows in the
+same (original) order. -/
+theorem take_depends_only_on_membership (rows : List α) (m m' : List Int)
+    (h : ∀ i : Nat, (i : Int) ∈ m ↔ (i : Int) ∈ m') : take rows m = take rows m' := by
+  rw [take_spec, take_spec]
+  congr 1
+  funext i
+  exact decide_eq_decide.mpr (h i)
+
+/-- **`take` of any kind of container** (list, tuple, set, range, array, dict view, bytes …: `kind` is the class of the
+object, `members` what it lists): the rows kept are those at the positions that are members, in their original order -
+whatever the class, whatever order the object lists its members in (`members'`: any listing with the same members,
+e.g. the ascending one of a range that counts down).  `takeAny` follows `Gen.Frame.ownPathKinds "take"`: a fast path
+for one class of object (`if isinstance(indexes, range) …: return self._rows[a:b:s]`) puts that class in the generated
+table and this theorem no longer checks. -/
+theorem take_any_container (kind : String) (rows : List α) (members members' : List Int)
+    (h : ∀ i : Nat, (i : Int) ∈ members ↔ (i : Int) ∈ members') :
+    takeAny kind rows members = some (pick (fun i => decide ((i : Int) ∈ members')) rows) := by
+  unfold takeAny Gen.Frame.ownPathKinds
+  simp only [List.any_nil, Bool.false_eq_true, if_false]
+  rw [take_depends_only_on_membership rows members members' h, take_spec]
+
+/-- The order a container lists its members in, and repeats, are not seen: `take` of the reversed / doubled listing. -/
+theorem take_listing_order_irrelevant (rows : List α) (m : List Int) :
+    take rows m.reverse = take rows m ∧ take rows (m ++ m) = take rows m :=
+  ⟨take_depends_only_on_membership _ _ _ (fun i => List.mem_reverse),
+   take_depends_only_on_membership _ _ _ (fun i => by simp)⟩
+
+/-- What `take_any_container` excludes: cutting the rows out with the extended slice of a range that counts down
+(`rows[4:0:-1]`) lists the selected rows backwards - the same positions `{1,2,3,4}`, another frame. -/
+theorem descending_slice_is_not_take :
+    take ["a", "b", "c", "d", "e"] [4, 3, 2, 1] = ["b", "c", "d", "e"]
+    ∧ take ["a", "b", "c", "d", "e"] [4, 3, 2, 1] ≠ ["e", "d", "c", "b"] := by
+  refine ⟨by decide, by decide⟩
+
 /-- `query(p)` keeps row `i` iff `p rows[i]`. -/
 theorem query_spec (rows : List α) (p : α → Bool) :
     query rows p = pick (fun i => ((rows[i]?).map p).getD false) rows := by
